@@ -41,7 +41,7 @@ LEVEL_NOTE = ("Trusted: simulator, interposer, meters (PY_START events count "
               "Python function entries, not C time; tracemalloc sees Python "
               "allocations incl. zlib output).  Bounds have ~20x headroom "
               "over honest handshakes.")
-BUDGET = {"quick": 75, "thorough": 1500}
+BUDGET = {"quick": 300, "thorough": 1500}
 CHUNK = 8
 STRUCT = ["sni_no_hostname", "psk_empty", "dup_ext", "drop_ext",
           "unknown_ext", "ske_curve_type", "cert_unknown_oid",
